@@ -16,9 +16,6 @@ open Brax Kin
 section
 variable {M : Type} {add : M → M → M} {z : M}
 
-/-- the carry functions of the reverse scans in brax: `if child is not None: body += child` -/
-def addF (add : M → M → M) : Option M → M → M := fun c a => match c with | none => a | some s => add a s
-
 /-- `Σ_{c<n} g c` -/
 def csum (add : M → M → M) (z : M) : Nat → (Nat → M) → M
   | 0, _ => z
